@@ -22,6 +22,7 @@ package adapter
 
 import (
 	"encoding/json"
+	"fmt"
 
 	"github.com/cosmos/cosmos-sdk/codec"
 
@@ -71,7 +72,7 @@ func (p *JSONParser) Parse(jsonString string) (*core.Payload, error) {
 	}
 
 	pw := core.PayloadWrapper{}
-	err = types.UnmarshalJSON(p.cdc, []byte(jsonString), &pw)
+	err = p.unmarshalPayloadWrapper(jsonString, &pw)
 	if err != nil {
 		return nil, core.ErrParsingPayload.Wrapf(
 			"failed to cast json string into Payload: %s",
@@ -80,4 +81,20 @@ func (p *JSONParser) Parse(jsonString string) (*core.Payload, error) {
 	}
 
 	return pw.Orbiter, nil
+}
+
+// unmarshalPayloadWrapper unmarshals the JSON string into the payload wrapper. The memo is
+// untrusted input: the codec can panic while resolving Any values that contain null list
+// elements (e.g. "fees_info":[null]), so a panic is converted into a parsing error.
+func (p *JSONParser) unmarshalPayloadWrapper(
+	jsonString string,
+	pw *core.PayloadWrapper,
+) (err error) {
+	defer func() {
+		if r := recover(); r != nil {
+			err = fmt.Errorf("malformed payload: %v", r)
+		}
+	}()
+
+	return types.UnmarshalJSON(p.cdc, []byte(jsonString), pw)
 }
